@@ -28,7 +28,7 @@ RULE = ("17 conversion entry points x source charts of 1-3 maps (0-7 hits / hold
         "non-trivial = the history leaves at least one list with labels other than 0..n-1 or the chart has >=2 "
         "non-empty lists; distinct = distinct canonical case JSON")
 ASSUMPTIONS = [
-    "codecs (shift_jis encode/decode, unidecode) are parameters: metadata strings are printable ASCII, on which they are the identity",
+    "codecs are parameters: texts are shift_jis-encodable (encode then decode is the identity); for a BMS source the value compared is unidecode(decode('sjis')) of the stored bytes, i.e. the converters' own transliteration applied to the source value (identity on ASCII, incl. ':' ';' ',' '#' quotes and blanks)",
     "a source map that has lost all its notes is skipped (key-count inference from an empty chart is not part of C08)",
     "raise_bad_mode is drawn from {omitted, True, False}; when the key count has no mode in the target game (decided with the repo's own QuaMapMode.get_mode / SMMapChartTypes.get_type) and the flag is not False, the documented ValueError is the expected outcome; with False a chart with an empty mode / chart type must still be produced for every source chart",
     "StepMania source charts use the five chart types that have a key count (get_keys is None for the others and SMToQua's int(None) is outside this property)",
@@ -45,10 +45,15 @@ HAS_SHIFT = {"O2JToBMS.convert": 1, "OsuToBMS.convert": 0, "QuaToBMS.convert": 0
 HAS_RBM = ("BMSToQua.convert", "OsuToQua.convert", "OsuToSM.convert", "SMToQua.convert")
 SM_TYPES = {3: "dance-threepanel", 4: "dance-single", 6: "dance-solo", 7: "kb7-single", 8: "dance-double"}
 KEYS_OF = dict(osu=[3, 4, 4, 5, 6, 7, 7, 8, 9], bms=[3, 4, 4, 5, 6, 7, 7, 8, 9], qua=[4, 7, 8], sm=[3, 4, 4, 6, 7, 7, 8], o2j=[7])
-TITLES = ["Song A", "nhelv", "Gravity", "x", "The Long Title (ver. 2)", "a-b_c"]
-ARTISTS = ["Silentroom", "Evening", "someone", "DJ 7"]
-CREATORS = ["mapper", "Eve", "c3", "anon"]
-VERSIONS = ["Hard", "Lv.12", "another", "Insane 4K"]
+# metadata texts: plain ones and ones with the characters that delimit something in one of the file formats
+# (':' ';' ',' '#' '//' quotes, blanks at the ends) and non-ASCII (shift_jis-encodable); converters work on in-memory charts
+TITLES = ["Song A", "nhelv", "Gravity", "x", "The Long Title (ver. 2)", "a-b_c", "Re:Start", "a;b", "x, y, z",
+          "#1 hit", "// intro", "  padded  ", "\u65e5\u672c\u8a9e\u30bf\u30a4\u30c8\u30eb", 'say "hi"', "it's"]
+ARTISTS = ["Silentroom", "Evening", "someone", "DJ 7", "artist / obj:name", "A;B feat. C", "x,y", "#id", " lead",
+           "\u30ca\u30a4\u30c8", "'q'"]
+CREATORS = ["mapper", "Eve", "c3", "anon", "m:apper", "a;b", "c, d", "#7", "trail ", "\u4f5c\u8005", '"x"']
+VERSIONS = ["Hard", "Lv.12", "another", "Insane 4K", "Lv:12", "a;b", "7K, hard", "#3", "// x", " sp ",
+            "\u96e3\u3057\u3044", "'h'"]
 SM_DIFFS = ["Beginner", "Easy", "Medium", "Hard", "Challenge", "Edit"]
 OPS = ["filter_after", "filter_before", "filter_col", "sort_rev", "append", "stack_offset", "stack_column",
        "stack_loc", "rate", "deepcopy", "slice", "read"]
@@ -205,6 +210,26 @@ def corpus():
                   setmeta=_SETMETA["o2j"], history=[dict(op="stack_offset", map=2, list="hits", d=1)], shift=None))
     c.append(dict(claim="convert", conv="BMSToSM.convert", keys=4, base="objects",
                   maps=[m("bms", [], [[250, 2, 125]], [[0, 120]])], setmeta={}, history=[], shift=None))
+    # metadata with the delimiters of the file formats, blanks at the ends, quotes, non-ASCII
+    sp = dict(title="Re:Start", artist="artist / obj:name", creator="a;b, #c")
+    c.append(dict(claim="convert", conv="OsuToSM.convert", keys=4, base="objects",
+                  maps=[m("osu", [[0, 0]], [[250, 2, 125]], [[0, 120]], [], version="Lv:12 // x", **sp)], setmeta={},
+                  history=[], shift=None, rbm=None))
+    c.append(dict(claim="convert", conv="QuaToSM.convert", keys=4, base="objects",
+                  maps=[m("qua", [[0, 0]], [[250, 2, 125]], [[0, 120]], [], difficulty_name=" sp ", **sp)], setmeta={},
+                  history=[], shift=None))
+    c.append(dict(claim="convert", conv="BMSToSM.convert", keys=4, base="objects",
+                  maps=[m("bms", [[0, 0]], [[250, 2, 125]], [[0, 120]], title="Re:Start;", artist="\u30ca\u30a4\u30c8 / obj:x", version='"h"')],
+                  setmeta={}, history=[], shift=None))
+    c.append(dict(claim="convert", conv="O2JToSM.convert", keys=7, base="objects", maps=[o1, o2, o3],
+                  setmeta=dict(title="  Re:Start  ", artist="A;B", creator="c:d"), history=[], shift=None))
+    c.append(dict(claim="convert", conv="O2JToSM.convert_merge", keys=7, base="objects", maps=[o1, o2],
+                  setmeta=dict(title="#1: x", artist="\u65e5\u672c;", creator="'q':"), history=[], shift=None))
+    c.append(dict(claim="convert", conv="SMToOsu.convert", keys=4, base="objects", maps=[sm1, sm2],
+                  setmeta=dict(_SETMETA["sm"], title="Re:Start", artist="x;y", credit="// c"), history=[], shift=None))
+    c.append(dict(claim="convert", conv="OsuToBMS.convert", keys=4, base="objects",
+                  maps=[m("osu", [[0, 0]], [[250, 2, 125]], [[0, 120]], [], title="\u65e5\u672c\u8a9e:1", artist=" a;b ", version="#7")],
+                  setmeta={}, history=[], shift=None))
     # keyword arguments: key counts the target has no mode for
     sm6 = m("sm", [[0, 5], [100, 2]], [[300, 0, 50]], [[0, 150]], difficulty="Hard", difficulty_val=9, chart_type="dance-solo")
     sm7 = m("sm", [[50, 6]], [], [[0, 150]], difficulty="Challenge", difficulty_val=12, chart_type="kb7-single")
@@ -250,6 +275,13 @@ def _isnum(x):
     return isinstance(x, list) and len(x) == 2 and all(isinstance(v, int) and not isinstance(v, bool) for v in x) and x[1] > 0
 
 
+def text_ok(v):
+    try:
+        return v.encode("shift_jis").decode("shift_jis") == v and v.isprintable()
+    except UnicodeError:
+        return False
+
+
 def valid(case):
     try:
         if case.get("claim") != "convert" or case["conv"] not in CONVS:
@@ -285,7 +317,7 @@ def valid(case):
             if set(m["meta"]) != set(_META[game]):
                 return False
             for k, v in m["meta"].items():
-                if type(v) is not type(_META[game][k]) or (isinstance(v, str) and not v.isascii()):
+                if type(v) is not type(_META[game][k]) or (isinstance(v, str) and not text_ok(v)):
                     return False
             if game == "o2j" and not 0 <= m["meta"]["level"] < 1000:
                 return False
@@ -297,7 +329,7 @@ def valid(case):
             if set(case["setmeta"]) != set(_SETMETA[game]):
                 return False
             for k, v in case["setmeta"].items():
-                if type(v) is not type(_SETMETA[game][k]) or (isinstance(v, str) and not v.isascii()):
+                if type(v) is not type(_SETMETA[game][k]) or (isinstance(v, str) and not text_ok(v)):
                     return False
         elif case["setmeta"]:
             return False
@@ -382,7 +414,7 @@ def build_map(game, spec, idx):
     for k, v in spec["meta"].items():
         if game == "o2j" and k == "level":
             continue
-        setattr(m, k, v.encode("ascii") if game == "bms" else v)
+        setattr(m, k, v.encode("shift_jis") if game == "bms" else v)
     return m
 
 
@@ -537,30 +569,36 @@ def frame(df):
     return dict(index=[int(i) for i in df.index], cols=[[str(c), [cell(v) for v in df[c].tolist()]] for c in df.columns])
 
 
-def attrs_of(obj):
+def attrs_of(obj, translit=False):
+    """the object's plain attributes as texts; `translit`: a BMS *source* — the converters read its byte strings
+    through unidecode(decode('sjis')), which is the value the target must carry"""
     out = []
     for k, v in vars(obj).items():
         if k in ("objs", "maps") or k.startswith("_"):
             continue
         if isinstance(v, (str, int, float, bool, bytes)) or v is None or \
                 (isinstance(v, list) and all(isinstance(x, (str, int)) for x in v)):
-            out.append([k, tostr(v)])
+            if translit and isinstance(v, bytes):
+                from unidecode import unidecode
+                out.append([k, unidecode(tostr(v))])
+            else:
+                out.append([k, tostr(v)])
     return sorted(out)
 
 
 LISTS = ("hits", "holds", "bpms", "svs")
 
 
-def snap_map(m, level):
+def snap_map(m, level, translit=False):
     lists = [[k, frame(m.objs[k].df)] for k in LISTS if k in m.objs]
-    return dict(lists=lists, meta=attrs_of(m), level=level)
+    return dict(lists=lists, meta=attrs_of(m, translit), level=level)
 
 
 def snap_src(game, src):
     if game in ("sm", "o2j"):
         levels = [tostr(src.level_name(m)) if game == "o2j" else "" for m in src.maps]
         return dict(meta=attrs_of(src), maps=[snap_map(m, l) for m, l in zip(src.maps, levels)])
-    return dict(meta=[], maps=[snap_map(src, "")])
+    return dict(meta=[], maps=[snap_map(src, "", translit=(game == "bms"))])
 
 
 def snap_chart(m):
